@@ -58,7 +58,7 @@ func c17sRun(t *testing.T, cfg *server.Config) *server.Server {
 		fmt.Printf("C17S setup-failed start: %v\n", err)
 		t.Fatalf("start server: %v", err)
 	}
-	deadline := time.Now().Add(15 * time.Second)
+	deadline := time.Now().Add(45 * time.Second) // generous: a loaded machine delays the single-node election
 	for time.Now().Before(deadline) {
 		if s.IsRunning() && s.IsLeader() {
 			return s
